@@ -81,30 +81,86 @@ def leaves(b, op, depth=0, seen=None):
     return {("l", l)}
 
 
+def _resolve(b, l):
+    """follow single-definition whole-local copies"""
+    for _ in range(8):
+        ds = b.defs().get(l, [])
+        if len(ds) == 1 and ds[0][0] == "stmt" and not ds[0][3][1] and ds[0][4][0] == "use" and ds[0][4][1][0] != "k" and not ds[0][4][1][1][1]:
+            l = ds[0][4][1][1][0]
+            continue
+        break
+    return l
+
+
+def _float_cmp(rv):
+    """the variable operand of a comparison with a float constant, or None"""
+    if rv[0] != "bin" or rv[1] not in od.CMP:
+        return None
+    ks = [o for o in rv[2:4] if o[0] == "k" and o[2] in FLOAT]
+    vs = [o for o in rv[2:4] if o[0] != "k"]
+    if len(ks) != 1 or len(vs) != 1:
+        return None
+    return vs[0]
+
+
+def _side(b, i, t, block, flags):
+    """(on_true, on_false): is `block` reachable from the non-zero / zero target of switch i — refined by tracking each
+    bool local in `flags` (a materialised `a || b` sends the `a` side through `flag = true` to the other exit)"""
+    false_t = [tgt for v, tgt in t[2] if v == "0"]
+    if not false_t:
+        return None
+    def reach(start):
+        if block not in b.reachable(start, avoid={i}):
+            return False
+        return all(block in b.reachable_with_flag(start, f, avoid={i}) for f in flags)
+    return reach(t[3]), reach(false_t[0])
+
+
 def guarded_leaves(b, block):
-    """leaves covered by a float-constant comparison in a switch dominating `block` (block on exactly one side)."""
+    """leaves covered by a float-constant comparison in a switch dominating `block` (block on exactly one side).
+    The comparison may be switched on directly, or be materialised into a bool first (`let degenerate = na <= 0.0 ||
+    nb <= 0.0; if degenerate { return .. }`): then every comparison stored into that bool is a guard when the constants
+    stored into it all send control to the other side."""
     out = set()
+    defs = b.defs()
+    flags = [l for l, (ty, name) in enumerate(b.locals) if ty == "bool" and any(d[0] == "stmt" and d[4][0] == "use" and d[4][1][0] == "k" for d in defs.get(l, []))]
     for i in sorted(b.live_blocks()):
         t = b.blocks[i]["t"]
         if t[0] != "switch" or t[1][0] == "k" or i == block or not b.dominates(i, block):
             continue
-        ds = [d for d in b.defs().get(t[1][1][0], []) if d[0] == "stmt"]
-        if len(ds) != 1 or ds[0][4][0] != "bin" or ds[0][4][1] not in od.CMP:
+        x = _resolve(b, t[1][1][0])
+        ds = [d for d in defs.get(x, []) if d[0] == "stmt" and not d[3][1]]
+        if not ds or len(ds) != len(defs.get(x, [])):
             continue
-        rv = ds[0][4]
-        ks = [o for o in rv[2:4] if o[0] == "k" and o[2] in FLOAT]
-        vs = [o for o in rv[2:4] if o[0] != "k"]
-        if len(ks) != 1 or len(vs) != 1:
+        side = _side(b, i, t, block, [f for f in flags if f != x])
+        if side is None or side[0] == side[1]:
             continue
-        false_t = [tgt for v, tgt in t[2] if v == "0"]
-        if not false_t:
+        on_true = side[0]
+        cmps, consts, other = [], [], False
+        for d in ds:
+            rv = d[4]
+            v = _float_cmp(rv)
+            if v is not None:
+                cmps.append(v)
+            elif rv[0] == "use" and rv[1][0] == "k":
+                consts.append(rv[1][1].strip() == "const true")
+            elif rv[0] == "use" and rv[1][0] != "k":
+                y = _resolve(b, rv[1][1][0])
+                dy = defs.get(y, [])
+                v = _float_cmp(dy[0][4]) if len(dy) == 1 and dy[0][0] == "stmt" else None
+                if v is None:
+                    other = True
+                else:
+                    cmps.append(v)
+            else:
+                other = True
+        if other or not cmps:
             continue
-        on_true = block in b.reachable(t[3], avoid={i})
-        on_false = block in b.reachable(false_t[0], avoid={i})
-        if on_true == on_false:
-            continue
-        out |= leaves(b, vs[0])
-        out |= {("l", x) for x in od.chain_locals(b, vs[0])}
+        if len(ds) > 1 and any(c == on_true for c in consts):
+            continue        # a constant stored into the bool leads to the division's side: not every comparison was made
+        for v in cmps:
+            out |= leaves(b, v)
+            out |= {("l", y) for y in od.chain_locals(b, v)}
     return out
 
 
